@@ -34,7 +34,12 @@ type (
 		schemas map[string]*openapi.Schema
 		// type names indexed by hashes
 		hashes map[uint64][]string
-		rand   *expr.ExampleGenerator
+		// refs of the types that were generated for a type with an explicit
+		// name (openapi:typename) indexed by generated ref: the generated ref
+		// differs from the ref computed from the explicit name when the name
+		// had to be made unique.
+		named map[string]string
+		rand  *expr.ExampleGenerator
 	}
 )
 
@@ -43,6 +48,7 @@ func newSchemafier(rand *expr.ExampleGenerator) *schemafier {
 	return &schemafier{
 		schemas: make(map[string]*openapi.Schema),
 		hashes:  make(map[uint64][]string),
+		named:   make(map[string]string),
 		rand:    rand,
 	}
 }
@@ -230,7 +236,7 @@ func (sf *schemafier) schemafy(attr *expr.AttributeExpr, noref ...bool) *openapi
 		refs, ok := sf.hashes[h]
 		if len(noref) == 0 && ok {
 			for _, ref := range refs {
-				if ref == metaRef || metaName == "" {
+				if ref == metaRef || metaName == "" || sf.named[ref] == metaRef {
 					s.Ref = ref
 					return s
 				}
@@ -248,6 +254,9 @@ func (sf *schemafier) schemafy(attr *expr.AttributeExpr, noref ...bool) *openapi
 		typeName := sf.uniquify(codegen.Goify(name, true))
 		s.Ref = toRef(typeName)
 		sf.hashes[h] = append(sf.hashes[h], s.Ref)
+		if metaName != "" {
+			sf.named[s.Ref] = metaRef
+		}
 		sf.schemas[typeName] = sf.schemafy(t.Attribute(), true)
 		return s // All other schema properties are set in the reference
 	default:
